@@ -15,7 +15,7 @@ RULE = ("byte strings up to 512 bytes: (1) exhaustive: every buffer of length <=
         "Non-trivial = the validator accepted the buffer or the buffer is a mutation of a valid message; distinct by case text.")
 TRUSTED = ["AddressSanitizer (a read outside the n bytes aborts the harness: CRASH), the 5 s alarm watchdog (HANG)",
            "tools/props/osc_common.py decode(): the independent OSC 1.0 decoder"]
-ASSUMPTIONS = ["n < 2^31", "in the tie, for buffers with a tag outside the 17 known ones or a non-NUL padding byte (which OSC 1.0 gives no "
+ASSUMPTIONS = ["n < 2^27 for the theorems about accepted buffers (the validator's own arithmetic is 32-bit; the totality and length-bound theorems hold for every n < 2^31)", "in the tie, for buffers with a tag outside the 17 known ones or a non-NUL padding byte (which OSC 1.0 gives no "
                "meaning) only memory safety is demanded of the implementation, not agreement with the Python decoder"]
 TECHNIQUE = ("Coq proofs about a model of the length/validity functions with the code's 32-bit unsigned arithmetic and "
              "option-returning readers + differential correspondence on exhaustive short buffers and structure-aware "
